@@ -313,6 +313,23 @@ Definition addr_in_bounds (frs : list frag) (a : N) : bool :=
   | None => false
   end.
 
+(* number of rows a scan yields; the row at logical offset o (tombstone past the end) *)
+Definition scan_len (frs : list frag) : N := N.of_nat (length (scan frs)).
+Definition at_offset (frs : list frag) (o : N) : N := nth (N.to_nat o) (scan frs) TOMBSTONE_ROW.
+Definition in_range (frs : list frag) (o : N) : bool := o <? scan_len frs.
+(* the rows a request by offsets denotes: the scan rows at the in-range offsets, in request order,
+   duplicates kept *)
+Definition expected_rows (frs : list frag) (offs : list N) : list N :=
+  map (at_offset frs) (filter (in_range frs) offs).
+(* the property for take(offsets): exactly those rows, or an error that is due to an out-of-range offset *)
+Definition take_agrees_with_scan (frs : list frag) (offs : list N) : Prop :=
+  take frs offs = Ok (expected_rows frs offs) \/
+  (take frs offs = Err /\ existsb (fun o => negb (in_range frs o)) offs = true).
+(* known-finding class: an offset OTHER THAN THE LAST requested one is out of range. Its tombstone
+   address u64::MAX reaches `last_offset + 1` in check_row_addrs: overflow panic (debug build). *)
+Definition Known_C15_oob_offset_not_last (frs : list frag) (offs : list N) : bool :=
+  existsb (fun o => negb (in_range frs o)) (removelast offs).
+
 (* well-formed fragment: u32 ids and sizes; deletions distinct and inside the fragment *)
 Definition dv_nodup (D : dvec) : bool :=
   (fix go (l : list N) := match l with [] => true | x :: xs => negb (existsb (N.eqb x) xs) && go xs end) D.
@@ -344,14 +361,19 @@ Definition chk_take_off (i : frags_in * list N) (out : outcome (list N)) : bool 
 Definition chk_take_scan (i : frags_in * list (N * N)) (out : outcome (list (list N))) : bool :=
   let res := take_scan (map mk_frag (fst i)) (snd i) in
   let all_ok := forallb (fun r => match r with Ok _ => true | _ => false end) res in
+  let any_panic := existsb (fun r => match r with Panic => true | _ => false end) res in
+  (* the harness issues at most one failing range, so "which failure surfaces first" is not at issue:
+     a panicking take panics the stream (JoinError unwrap), an Err ends it with an error *)
   match out with
   | Ok batches => all_ok && list_eqb (list_eqb N.eqb) (flat_map (fun r => match r with Ok l => [l] | _ => [] end) res) batches
-  | Err => negb all_ok
-  | Panic => false
+  | Err => negb all_ok && negb any_panic
+  | Panic => any_panic
   end.
 
-(* stream "scan": the _rowaddr column of an ordered full scan *)
-Definition chk_scan (i : frags_in) (out : list N) : bool := list_eqb N.eqb (scan (map mk_frag i)) out.
+(* stream "scan": the _rowaddr column of an ordered full scan; also: every real table state satisfies
+   the well-formedness hypothesis of the theorems (frags_wf) *)
+Definition chk_scan (i : frags_in) (out : list N) : bool :=
+  frags_wf (map mk_frag i) && list_eqb N.eqb (scan (map mk_frag i)) out.
 
 (* stream "take_id": take_builder(row ids) on a table with stable row ids; the row id index is taken
    to be the (_rowid, _rowaddr) association the scan reports (RowIdIndex itself is C34's object) *)
